@@ -105,6 +105,12 @@ def cases(tier, seed):
                     out.append({"kind": "painter", "N": N, "painter": pk, "kw": kw, "console": False, "b": 0, "seed": seed, "idx": idx,
                                 "refine": False, "coincident": True})
                     idx += 1
+    # one listener OBJECT serves two solvers one after the other (a console listener and a recording partial listener)
+    for rep in range(reps):
+        for N in (1, 2, 3):
+            for mode in ("full", "custom", "result"):
+                out.append({"kind": "reuse", "N": N, "mode": mode, "b": (N + rep) % 4, "seed": seed, "idx": idx, "refine": (N + rep) % 2 == 0})
+                idx += 1
     # the repository's own example scripts (console and painter listeners as their authors attach them), run with and without
     # their listeners: identical trial logs and results
     out += [dict(c, idx=idx + n) for n, c in enumerate(ambient.ambient_cases(tier)) if c["ambient"] == "script"]
@@ -366,6 +372,40 @@ def run_case(c):
         return {"violations": viol, "obs": obs, "nontrivial": True, "key": "multi|%d|%d|%d" % (N, c["b"], c["idx"]),
                 "sample": {"kind": "multi", "N": N, "masks": masks, "pattern": scn["pattern"]} if c["idx"] % 5 == 0 else None}
     from iOpt.method.listener import ConsoleFullOutputListener
+    if c["kind"] == "reuse":
+        # first life of the two listener objects: another solver on another scenario
+        events = []
+        first_scn = base_scn(rng, int(rng.integers(1, 4)), int(rng.integers(8, 20)), refine=False)
+        first_scn["pattern"] = [["iter", 2], ["solve"]]
+        p1, _ = record.make_problem(first_scn, cap=first_scn["iters"] + 30)
+        console = ConsoleFullOutputListener(mode=c["mode"], iters=int(rng.integers(1, 4)))
+        partial = make_subset_listener(7, events, p1, int(rng.integers(4)))
+        record.run_solver(first_scn, listener=False, problem=p1, extra_listeners=[console, partial])
+        del events[:]
+        # second life: the case's own solver
+        partial2 = make_subset_listener(7, events, prob, 0)
+        partial.__class__ = partial2.__class__          # same object, callbacks now log against the second problem
+        try:
+            t = record.run_solver(scn, listener=False, problem=prob, extra_listeners=[console, partial], after_step=after_step)
+        except Exception as e:
+            import traceback
+            viol.append({"mech": "listener-makes-api-raise", "what": "listener objects reused for a second solver", "exc": repr(e),
+                         "traceback": traceback.format_exc()[-1500:]})
+            return {"violations": viol, "obs": obs, "nontrivial": True, "key": "reuse|%d|%d" % (N, c["idx"])}
+        compare_with_baseline(t, base, viol, "listener objects reused for a second solver")
+        check_console(t, viol, obs)
+        nsolve = len([s_ for s_ in scn["pattern"] if s_[0] == "solve"])
+        glog = [e for e in t.log if e["ph"] == "g"]
+        got = {kk: len([e for e in events if e["cb"] == kk]) for kk in ("before", "stop")}
+        if got != {"before": 1, "stop": nsolve}:
+            viol.append({"mech": "callback-not-delivered-to-reused-listener", "delivered": got, "expected": {"before": 1, "stop": nsolve}})
+        delivered = [y for e in events if e["cb"] == "iter" for y in e["items"]]
+        if len(delivered) != len(glog) or any(not np.array_equal(a, g["y"]) for a, g in zip(delivered, glog)):
+            viol.append({"mech": "callback-new-trials-wrong", "what": "reused listener object"})
+        obs["reused_listener_runs"] = 1
+        obs["console_runs"] = 1
+        return {"violations": viol, "obs": obs, "nontrivial": True, "key": "reuse|%d|%s|%d" % (N, c["mode"], c["idx"]),
+                "sample": {"kind": "listener objects reused", "N": N, "mode": c["mode"], "pattern": scn["pattern"]} if N == 1 else None}
     outdir = tempfile.mkdtemp(prefix="c13fig_")
     try:
         import matplotlib
@@ -435,7 +475,7 @@ def run_case(c):
 def finalize(obs, tier, stats):
     for k in ("before_checked", "iter_callbacks_checked", "stop_callbacks_checked", "console_reports_checked", "painter_runs", "painter_probe_calls",
               "figures_written", "refine_runs", "multi_listener_runs", "hostile_grid_boxes", "runs_with_coincident_projected_trials",
-              "listener_class_shape_0", "listener_class_shape_1", "listener_class_shape_2", "listener_class_shape_3", "console_subclass_runs", "attached_directly", "attached_through_proxy", "ambient_solvers_compared", "ambient_with_user_listeners", "console_local_counts_checked"):
+              "listener_class_shape_0", "listener_class_shape_1", "listener_class_shape_2", "listener_class_shape_3", "console_subclass_runs", "attached_directly", "attached_through_proxy", "ambient_solvers_compared", "ambient_with_user_listeners", "console_local_counts_checked", "reused_listener_runs"):
         if not obs.get(k):
             return "%s never observed" % k, {}
     if len(obs.get("painter_kinds", [])) < 19:
